@@ -92,6 +92,25 @@ func (w *World) errValueConsumed(e, root ssa.Value, opts errOpts, seen map[ssa.V
 			if ok, f := w.errValueConsumed(x, root, opts, seen); ok {
 				return true, f
 			}
+		case *ssa.Call:
+			// passed to a wrapper that hands a non-nil error back (EnsureInterface(v, err)):
+			// the obligation moves to the wrapper's error result
+			sc := x.Call.StaticCallee()
+			if sc == nil || !w.inPkg(sc) || errIndex(sc.Signature) < 0 {
+				continue
+			}
+			for i, a := range x.Call.Args {
+				if a != e || i >= len(sc.Params) {
+					continue
+				}
+				if w.forwardsErrParam(sc, sc.Params[i]) {
+					if ok, f := w.errConsumed(x, opts); ok {
+						return true, "handed to " + fnName(sc) + " which returns it; " + f
+					} else {
+						reasons = append(reasons, "handed to "+fnName(sc)+" whose result is not consumed: "+f)
+					}
+				}
+			}
 		case *ssa.Store:
 			// named result spilled because a deferred closure captures it:
 			// stored, then loaded by the return
@@ -190,6 +209,35 @@ func (w *World) nonNilErr(v, given ssa.Value, phiRes map[*ssa.Phi]ssa.Value, dep
 	case *ssa.Extract:
 		if call, ok := x.Tuple.(*ssa.Call); ok {
 			_ = call
+		}
+	}
+	return false
+}
+
+// forwardsErrParam: fn tests its error parameter p against nil and every path
+// from the non-nil edge returns a non-nil error.
+func (w *World) forwardsErrParam(fn *ssa.Function, p *ssa.Parameter) bool {
+	if fn.Blocks == nil || !isErrorType(p.Type()) {
+		return false
+	}
+	for _, ref := range *p.Referrers() {
+		bo, ok := ref.(*ssa.BinOp)
+		if !ok || (bo.Op != token.NEQ && bo.Op != token.EQL) {
+			continue
+		}
+		for _, rr := range *bo.Referrers() {
+			iff, ok := rr.(*ssa.If)
+			if !ok {
+				continue
+			}
+			b := iff.Block()
+			nonNil := b.Succs[0]
+			if bo.Op == token.EQL {
+				nonNil = b.Succs[1]
+			}
+			if ok2, _ := w.pathsSurface(b, nonNil, p, errOpts{}); ok2 {
+				return true
+			}
 		}
 	}
 	return false
